@@ -129,6 +129,9 @@ class Environment:
                 self.coredata: coredata.CoreData = coredata.load(self.get_build_dir(), suggest_reconfigure=False)
                 self.first_invocation = False
             except FileNotFoundError:
+                # An interrupted "meson setup --wipe" leaves the recorded command
+                # line behind: its options and machine files are still in force.
+                cmdline.read_cmd_line_file(self.build_dir, cmd_options)
                 self.create_new_coredata(cmd_options)
             except coredata.MesonVersionMismatchException as e:
                 # This is routine, but tell the user the update happened
